@@ -508,6 +508,10 @@ C19(scn, obs) ==
             \cup (IF d.proto = "connect" /\ d.http # "GET" /\ mi.stream = "unary" =>
                       (d.http = "POST" /\ d.form = "connect_post" /\ d.query = "none" /\ (scn.hd.noread \/ Len(d.frames) = 1))
                   THEN {} ELSE {"C19.OtherwisePostWithBody"})
+            \* a Connect GET's message comes out of the query string as exactly what a POST would have carried
+            \* (however the GET names its protocol version, base64 or not, padded or not, compressed or not)
+            \cup (IF scn.cl.form = "connect_get" /\ ~scn.hd.noread /\ Ids(d.frames) # ReqIds(scn)
+                  THEN {"C19.GetMessageDecoded"} ELSE {})
           ELSE {})
 
 Judge(scn, obs) ==
